@@ -7,6 +7,7 @@ import LolHtml.Lane.Scope
 import LolHtml.Lane.Hash
 import LolHtml.Lane.Enc
 import LolHtml.Lane.Esc
+import LolHtml.Lane.CApi
 
 namespace LolHtml.Lane
 
@@ -20,7 +21,8 @@ def registry : List (String × (String → String)) :=
     ("scope", Scope.run),
     ("hash", Hash.run),
     ("enc", Enc.run),
-    ("esc", Esc.run) ]
+    ("esc", Esc.run),
+    ("capi", CApi.run) ]
 
 def find (name : String) : Option (String → String) :=
   (registry.find? (·.1 == name)).map (·.2)
